@@ -24,7 +24,9 @@ RULE = (
     "arguments; return value == base value (keep modes) / payload's return (replace modes) / "
     "f(base) (function mode); reference VM on the rewritten bytes ends with an empty stack; the "
     "base's find_class sequence is a subsequence of the rewritten one; exactly one STOP, last; "
-    "check_safety(rewritten) != LIKELY_SAFE for call-injecting modes. Non-trivial = base has its "
+    "check_safety(rewritten) != LIKELY_SAFE for call-injecting modes. The injected function carries an annotation that is an expression "
+    "and returns its evaluated value (the precompiled form must be the function the text defines); dict arguments "
+    "are compared with their insertion order. Non-trivial = base has its "
     "own globals/effects, > 255 memo entries, protocol <= 1, or sparse memo keys; distinct = "
     "distinct (base bytes, mode, loader)."
     ' Also: qualified-name callables on protocol >= 4 bases, container and > 255-byte bytes'
